@@ -22,6 +22,7 @@ import vlib
 PID = "C05"
 FILES = ["theories/Properties/C05.v", "theories/Examples/C05Examples.v"]
 MAX_INT32 = 2147483647
+MAX_LINK_ID = 32767  # bbolt.MaxKeySize - 1: a link is the KEY <type tag><peer id> on both sides
 LINK_FIELDS = ("gl", "il", "it", "raw")
 FIELDS = ("p", "gl", "il", "it", "raw", "cs", "ct", "cg", "craw", "cit")
 
@@ -52,6 +53,9 @@ def parse_op(t, hier=False):
     if kind == "DW":  # DeleteWhere: filter true (all) or membership of the id in keys
         op["all"] = t.next() == "1"
         op["keys"] = t.ids()
+    elif kind in ("CS", "US"):  # create / update through store level w; the strategy writes the link field of pair
+        op["pair"] = int(t.next())
+        op["keys"] = t.ids()
     elif kind in ("AL", "RL", "SL"):
         op["keys"] = t.ids()
     elif kind in ("A1", "R1", "I", "DC"):
@@ -74,6 +78,8 @@ def op_text(op):
         s += " %s %d" % (op["keys"][0], op["count"])
     elif op["kind"] == "DW":
         s += " %d %d" % (1 if op["all"] else 0, len(op["keys"])) + "".join(" " + k for k in op["keys"])
+    elif op["kind"] in ("CS", "US"):
+        s += " %d %d" % (op["pair"], len(op["keys"])) + "".join(" " + k for k in op["keys"])
     return s
 
 
@@ -101,13 +107,13 @@ def parse_case(line):
             txs.append([parse_op(t, True) for _ in range(n)])
         return dict(kind="T", tag=kind, kids=kids, pairs=pairs, pkinds=pkinds, uA=uA, uB=uB, txs=txs)
     uA, uB = t.ids(), t.ids()
-    if kind == "H":
+    if kind in ("H", "Z"):  # Z: a history whose ids sit at the key size limits of the storage
         ntx = int(t.next())
         txs = []
         for _ in range(ntx):
             n = int(t.next())
             txs.append([parse_op(t) for _ in range(n)])
-        return dict(kind="H", uA=uA, uB=uB, txs=txs)
+        return dict(kind="H", tag=kind, uA=uA, uB=uB, txs=txs)
     sd, a = t.next(), t.next()
     cur, req, pre = t.ids(), t.ids(), t.ids()
     return dict(kind="S", uA=uA, uB=uB, sd=sd, a=a, cur=cur, req=req, pre=pre,
@@ -125,18 +131,46 @@ def topo_text(case):
 
 def history_text(case, txs):
     uA, uB = case["uA"], case["uB"]
-    head = "H" if case["kind"] != "T" else case.get("tag", "T") + " " + topo_text(case)
+    head = case.get("tag", "H") if case["kind"] != "T" else case.get("tag", "T") + " " + topo_text(case)
     s = "%s %d%s %d%s %d" % (head, len(uA), "".join(" " + x for x in uA), len(uB), "".join(" " + x for x in uB), len(txs))
     for tx in txs:
         s += " %d" % len(tx) + "".join(" " + op_text(op) for op in tx)
     return s
 
 
+def id_len(h):
+    """length in bytes of the id a case token stands for (<hex prefix>*<length> = the prefix padded with 'z')"""
+    if "*" in h:
+        return int(h.split("*")[1])
+    return 0 if h == "-" else len(h) // 2
+
+
+class LongId(str):
+    def __repr__(self):
+        return str(self)
+
+
 def unhex(h):
+    if "*" in h:
+        pre, n = h.split("*")
+        pre = "" if pre == "-" else bytes.fromhex(pre).decode("latin-1")
+        return LongId("%r+'z'*%d (%s bytes)" % (pre, int(n) - len(pre), n))
     return "" if h == "-" else bytes.fromhex(h).decode("latin-1")
 
 
+def key_too_large(op):
+    """the operation has to write a link KEY for an id longer than the storage accepts (bbolt.MaxKeySize): it
+    links - on one side or the other - an entity whose id has more than MAX_LINK_ID bytes"""
+    k = op["kind"]
+    writes = (k in ("AL", "SL", "CS", "US") and op["keys"]) or k in ("A1", "I") or (k == "SC" and op["count"] != 0)
+    return bool(writes) and any(id_len(x) > MAX_LINK_ID for x in [op["a"]] + op["keys"])
+
+
 def pretty_op(op):
+    if op["kind"] in ("CS", "US"):
+        return "%s[%s.%s](%r, links of pair %d = %r)" % (
+            "Create" if op["kind"] == "CS" else "Update", op["sd"], "root" if op["w"] == 0 else "child%d" % op["w"],
+            unhex(op["a"]), op["pair"], [unhex(k) for k in op["keys"]])
     names = dict(C="Create", D="Delete", AL="AddLinks", RL="RemoveLinks", SL="SetLinks", A1="AddLink", R1="RemoveLink",
                  I="IncrementLinkCount", DC="DecrementLinkCount", SC="SetLinkCount", DW="DeleteWhere")
     where = op["sd"]
@@ -307,15 +341,44 @@ def property_oracle(case, sides, guard):
     return None
 
 
-LINKING = ("AL", "SL", "A1", "I", "SC")
+LINKING = ("AL", "SL", "A1", "I", "SC", "CS", "US")
+
+
+SET_COUNT_KEY = "C05:set-link-count-storage-error-swallowed"
 
 
 def classify(case, blocks_i, blocks_m):
-    """first transaction whose observation differs -> (key, text, no_input) ; None when all agree"""
+    """first transaction whose observation differs -> (key, text, no_input) ; None when all agree.
+    A violation whose transaction asks SetLinkCount to write a key the storage refuses is keyed by that input class
+    (design/C05.md, candidate defect 4: TypedBucket.SetLinkCount drops the error of the failed Put)."""
+    r = classify0(case, blocks_i, blocks_m)
+    if r is not None and case.get("tag") == "Z" and not r[2]:
+        for tx in case["txs"]:
+            if any(o["kind"] == "SC" and key_too_large(o) for o in tx) and ("[%s]" % "; ".join(pretty_op(o) for o in tx)) in r[1]:
+                return (SET_COUNT_KEY, r[1] + " (SetLinkCount reported success although the storage refused the key of one side)", r[2])
+    return r
+
+
+def classify0(case, blocks_i, blocks_m):
     guard = in_guard(case)
     prev = None
+    refused = False  # Z cases: the storage refused a key, the model (which has no size limit) no longer applies
     for n, (bi, bm) in enumerate(zip(blocks_i, blocks_m)):
-        if bi == bm:
+        if bi == bm and not refused:
+            prev = bi
+            continue
+        if refused:
+            # only the property clauses, on the implementation's own observation
+            vi, si = parse_block(bi)
+            tx = case["txs"][n] if n < len(case["txs"]) else []
+            where = "transaction %d [%s]" % (n, "; ".join(pretty_op(o) for o in tx))
+            if si is None:
+                return "C05:observer-failure", "the observers failed after %s: %s" % (where, bi[:300]), False
+            hit = property_oracle(case, si, guard)
+            if hit:
+                return hit[0], "after %s: %s" % (where, hit[1]), False
+            if vi.startswith("f") and prev is not None and bi.split(None, 1)[1:] != prev.split(None, 1)[1:]:
+                return "C05:failed-tx-changed-state", "the failed %s changed the link state" % where, False
             prev = bi
             continue
         hier = case["kind"] == "T"
@@ -341,6 +404,14 @@ def classify(case, blocks_i, blocks_m):
                     return ("C05:missing-entity-accepted", "%s must fail (it links from or to an entity that does not exist) but returned no error in %s"
                             % (pretty_op(op), where), False)
                 return "C05:error-expected", "%s must fail but returned no error in %s" % (pretty_op(op), where), False
+            if vi.startswith("f") and case.get("tag") == "Z" and int(vi[1:]) < len(tx) and key_too_large(tx[int(vi[1:])]):
+                # the storage cannot hold the key of one side: refusing the operation is the only symmetric answer;
+                # the transaction must then leave everything as it was
+                if prev is not None and bi.split(None, 1)[1:] != prev.split(None, 1)[1:]:
+                    return "C05:failed-tx-changed-state", "the failed %s changed the link state" % where, False
+                refused = True
+                prev = bi
+                continue
             if vi.startswith("f"):
                 return ("C05:spurious-error", "%s failed although every entity it names exists, in %s (model: %s)"
                         % (pretty_op(tx[int(vi[1:])]) if int(vi[1:]) < len(tx) else "?", where, vm), False)
@@ -410,7 +481,7 @@ def shrink(c, harness, model, case, key):
                     # move the operation into a transaction of its own is not tried; split instead
                     pass
                 op = tx[j]
-                if op["kind"] in ("AL", "RL", "SL") or (op["kind"] == "DW" and len(op["keys"]) > 1):
+                if op["kind"] in ("AL", "RL", "SL", "CS", "US") or (op["kind"] == "DW" and len(op["keys"]) > 1):
                     for k in range(len(op["keys"])):
                         op2 = dict(op, keys=op["keys"][:k] + op["keys"][k + 1:])
                         cands.append(txs[:i] + [tx[:j] + [op2] + tx[j + 1:]] + txs[i + 1:])
@@ -495,7 +566,7 @@ def main(argv):
     distinct = set()
     differing = 0
     reported = {}
-    kinds = {"H": 0, "S": 0, "T": 0, "K": 0}
+    kinds = {"H": 0, "S": 0, "T": 0, "K": 0, "Z": 0}
     txs_total = 0
     out_of_guard = 0
     for line, i, m in zip(cases, impl, modl):
